@@ -28,7 +28,7 @@ Definition ids_below (st : tstate) : Prop := forall e, In e (ents st) -> e_id e 
 (* every stored row that has a key is in the unique index (needed only with an integer primary
    key, where undo re-inserts index entries) *)
 Definition kidx_complete (sch : schema) (st : tstate) : Prop :=
-  forall e, In e (ents st) -> has_key sch (e_row e) = true -> kmem (c0 (e_row e)) (kidx st) = true.
+  forall e, In e (ents st) -> live e = true -> has_key sch (e_row e) = true -> kmem (c0 (e_row e)) (kidx st) = true.
 Definition inv (sch : schema) (st : tstate) : Prop :=
   ids_sorted st /\ ids_below st /\ 0 <= rcount st /\ (int_pk sch = true -> kidx_complete sch st).
 
@@ -40,8 +40,7 @@ Definition no_bare (st : tstate) : Prop := forall e, In e (sidx st) -> s_suf e <
 (* A statement of the body is covered in the state it runs in when it is
      - an INSERT that inserts all its rows or none (a multi-row INSERT failing at a later row keeps
        the earlier rows without counting them: recorded finding, class 5),
-     - an UPDATE of a column that is not a key (c1, or c0 of a table without key) which, on a table
-       with an integer primary key, touches no tombstone (recorded finding, class 4),
+     - an UPDATE of a column that is not a key (c1, or c0 of a table without key),
      - SAVEPOINT / ROLLBACK TO / RELEASE of a savepoint created inside the body, BEGIN (an error
        inside a transaction), or no statement.
    DELETE, UPDATE of a key column, COMMIT, ROLLBACK and dropping the handle are not covered. *)
@@ -53,23 +52,24 @@ Definition ins_all_or_none (sch : schema) (st : tstate) (rows : list trow) : boo
 Definition upd_sel (sch : schema) (st : tstate) (sc : colid) (w : wclause) : list ent :=
   match pk_info sch w st with
   | Some (id, wv) =>
-      if negb (is_c0 sc && keyed sch) && negb (has_toast sch) then
+      if negb (idx_mod sch sc) && negb (has_toast sch) then
         match find_ent id (ents st) with
-        | Some e => if value_eqb (c0 (e_row e)) wv then [e] else []
+        | Some e => if live e && value_eqb (c0 (e_row e)) wv then [e] else []
         | None => []
         end
       else select sch w st
   | None => select sch w st
   end.
+(* statements that leave the secondary index alone: everything but an UPDATE of the indexed column
+   (its undo does not put the index entry back: finding class 3) *)
+Definition sec_clean (o : op) : bool := match o with OUpd C1 _ _ => false | _ => true end.
 Definition names_of (l : list (Z * nat)) : list Z := map fst l.
 Fixpoint zin (n : Z) (l : list Z) : bool := match l with [] => false | x :: l' => (x =? n) || zin n l' end.
 
 Definition clean_op (sch : schema) (outer : list Z) (o : op) (s : tstate * option txn) : bool :=
   match o with
   | OIns rows => ins_all_or_none sch (fst s) rows
-  | OUpd sc v w =>
-      negb (is_c0 sc && keyed sch) &&
-      (negb (int_pk sch) || forallb live (upd_sel sch (fst s) sc w))
+  | OUpd sc v w => negb (is_c0 sc && keyed sch)
   | OSave n => true
   | ORollTo n | ORelease n => negb (zin n outer)
   | OBegin | OObs => true
